@@ -66,12 +66,13 @@ def run_case(ctx, case):
         return
     # depth / field queries: Content vs Form vs model
     q_content = {"purelist_depth": b.purelist_depth(h), "minmax_depth": list(b.minmax_depth(h)),
-                 "purelist_isregular": b.purelist_isregular(h), "numfields": b.numfields(h), "keys": b.keys(h)}
+                 "purelist_isregular": b.purelist_isregular(h), "numfields": b.numfields(h), "keys": b.keys(h),
+                 "branch_depth": list(b.branch_depth(h))}
     q_form = {"purelist_depth": b.form_purelist_depth(f), "minmax_depth": list(b.form_minmax_depth(f)),
               "purelist_isregular": b.form_purelist_isregular(f), "numfields": b.form_numfields(f),
-              "keys": b.form_keys(f)}
+              "keys": b.form_keys(f), "branch_depth": list(b.form_branch_depth(f))}
     q_model = {"purelist_depth": model.purelist_depth(t), "minmax_depth": list(model.minmax_depth(t)),
-               "purelist_isregular": model.is_regular(t)}
+               "purelist_isregular": model.is_regular(t), "branch_depth": list(model.branch_depth(t))}
     ctx.count("query_checks")
     if q_content != q_form:
         ctx.violation("content-vs-form-queries", {"content": q_content, "form": q_form, "type": want})
